@@ -27,6 +27,8 @@ def dec(v):
             return [dec(e) for e in v["l"]]
         if "f" in v:
             return float(v["f"])
+        if "ih" in v:
+            return int(v["ih"], 16)     # hexadecimal: no limit on the number of digits
         if "i" in v:
             return int(v["i"])
         if "s" in v:
@@ -42,6 +44,8 @@ def enc(v):
     if isinstance(v, bool):
         return {"b": v}
     if isinstance(v, int):
+        if abs(v) >= 1 << 12000:
+            return {"ih": hex(v)}
         return {"i": str(v)}
     if isinstance(v, float):
         return {"f": repr(v)}
